@@ -162,35 +162,48 @@ def run(ctx):
                for c in ast.walk(ff)) and any(isinstance(r_, ast.Return) for r_ in ast.walk(ff)):
             checker_names.add(fq)
     from .. import paths as _paths
+    # path-wise (paths.py): every feasible path of getreader that returns a reader has, before the return, either decided "accepted"
+    # on a call of the acceptance test (directly, through a wrapper, or through a flag that holds its result) or completed a trial
+    # open (testreader) without leaving through its exception handler
+    def is_ask(c):
+        return isinstance(c, ast.Call) and (c.args or c.keywords) and ((isinstance(c.func, ast.Name) and c.func.id in checker_names) or
+                                                                        (isinstance(c.func, ast.Attribute) and c.func.attr == 'isMine'))
     nret = 0
-    for st in iter_stmts(g.body):
-        if not isinstance(st, ast.Return) or st.value is None or '<locals>' in getattr(st, '_q', ''):
+    verdicts = {}
+    seeds = [st for st in iter_stmts(g.body) if isinstance(st, ast.Return) and st.value is not None]
+    for pth in _paths.enumerate_paths(g.body, limit=60000, relevant=_paths.relevance(g.body, seeds)):
+        if pth.exit[0] != 'return' or pth.exit[1] is None:
             continue
-        # returns inside the nested trial-open helper are not returns of getreader
-        inner = False
-        par = getattr(st, '_parent', None)
-        guards = []
-        while par is not None and par is not g:
-            if isinstance(par, ast.FunctionDef):
-                inner = True
-            if isinstance(par, ast.If) and st_in(par.body, st):
-                guards.append(par.test)
-            par = getattr(par, '_parent', None)
-        if inner:
-            continue
+        # the scan loop is opaque at function level: look inside it
+        continue
+    loops_ = [st for st in iter_stmts(g.body) if isinstance(st, ast.For) and any(isinstance(x, ast.Return) and x.value is not None for x in walk_expr(st))]
+    blocks = [(lp.body, lp) for lp in loops_] + [(g.body, None)]
+    for body_, lp in blocks:
+        for pth in _paths.enumerate_paths(body_, limit=60000, relevant=_paths.relevance(body_, [s_ for s_ in iter_stmts(body_) if isinstance(s_, ast.Return)])):
+            if pth.exit[0] != 'return' or pth.exit[1] is None:
+                continue
+            rst = [s_ for s_ in pth.stmts if isinstance(s_, ast.Return)][-1]
+            if lp is None and any(any(x is rst or (getattr(x, 'lineno', None) == rst.lineno and isinstance(x, ast.Return)) for x in ast.walk(l2)) for l2 in loops_):
+                continue
+            res = _paths.expand(pth)
+            if not res.feasible:
+                continue
+            asked = any(p_ is True and any(is_ask(c) for c in ast.walk(x)) for e_, x, p_ in res.conds)
+            if not asked:
+                trial = [k_ for k_, s_ in enumerate(pth.stmts) if isinstance(s_, ast.Expr) and isinstance(s_.value, ast.Call) and dotted(s_.value.func) == 'testreader']
+                handler_after = [k_ for k_, s_ in enumerate(pth.stmts) if isinstance(s_, ast.Expr) and isinstance(s_.value, ast.Constant) and str(s_.value.value).startswith('<except')]
+                asked = bool(trial) and not any(h > trial[-1] for h in handler_after)
+            key = (rst.lineno, norm(rst))
+            guards = [norm(e_)[:50] for e_, x, p_ in res.conds][-3:]
+            if key not in verdicts or (verdicts[key][0] and not asked):
+                verdicts[key] = (asked, rst, guards)
+    for key, (asked, st, guards) in sorted(verdicts.items()):
         nret += 1
-        asked = False
-        genv = _paths.dominating_env(g, st)
-        for t in guards:
-            for c in ast.walk(_paths.subst(t, genv)):
-                if isinstance(c, ast.Call) and ((isinstance(c.func, ast.Name) and c.func.id in checker_names) or
-                                                (isinstance(c.func, ast.Attribute) and c.func.attr == 'isMine')) and (c.args or c.keywords):
-                    asked = True
         if asked:
             ctx.ok('R-ASKED', norm(st)[:40], 'src/PseudoNetCDF/%s getreader' % REG, 'under a call of %s' % sorted(checker_names))
         else:
             ctx.violation(Finding('R-ASKED', REG, 'getreader', st, 'a reader is returned without calling its acceptance test on the file (guards: %s): the reader is then chosen '
-                                  'by something other than the file content' % ([norm(t)[:50] for t in guards] or 'none')))
+                                  'by something other than the file content' % (guards or 'none')))
     if not nret:
         raise AnalysisError('construct not understood: getreader returns no reader')
 
